@@ -1,10 +1,14 @@
 (** C07 -- Bmad-X tracking agrees with the linear map to first order and is an exact flow.
-    Proved here: the Bmad-X drift (all clauses) and the zero-voltage transverse deflecting cavity.  Quadrupole and dipole
-    Bmad-X tracking are NOT modelled in Coq: their clauses are tested on the implementation only (harness/props/c07.py).
-    Models: Bmadx/DriftX.v (sqrt_one, track_a_drift, Drift._track_bmadx), Bmadx/Tdc.v, Bmadx/Coords.v; linear map: Optics/Maps.v. *)
+    Proved here: the Bmad-X drift (all clauses), the zero-voltage transverse deflecting cavity, and the Bmad-X quadrupole
+    (transverse block = linear map at delta = 0, exact flow incl. z and num_steps independence for eps := 0, determinant defect
+    of the coded eps = 2^-52, on-axis particle = Bmad-X drift, offset round trip, R56).  Dipole Bmad-X tracking is NOT
+    modelled in Coq: its clauses are tested on the implementation only (harness/props/c07.py).
+    Models: Bmadx/DriftX.v (sqrt_one, track_a_drift, Drift._track_bmadx), Bmadx/Tdc.v, Bmadx/Coords.v, Bmadx/QuadX.v
+    (calculate_quadrupole_coefficients, low_energy_z_correction, Quadrupole._track_bmadx); linear map: Optics/Maps.v. *)
 From Coq Require Import Reals.
 From Coquelicot Require Import Coquelicot.
-From Cheetah Require Import Base.Mat Optics.Maps Bmadx.Coords Bmadx.DriftX Bmadx.DriftXProofs Bmadx.DriftXJac Bmadx.Tdc Bmadx.TdcProofs.
+From Cheetah Require Import Base.Mat Optics.Maps Bmadx.Coords Bmadx.DriftX Bmadx.DriftXProofs Bmadx.DriftXJac Bmadx.Tdc Bmadx.TdcProofs
+  Bmadx.QuadX Bmadx.QuadXProofs Bmadx.QuadXFlow.
 Open Scope R_scope.
 
 (** sqrt_one(x) = sqrt(1+x) - 1 *)
@@ -58,6 +62,81 @@ Theorem C07_tdc_off_is_driftx : forall phi0 f cl p0c m, 0 < p0c -> 0 < m -> fora
   tdc_bmad L 0 phi0 f cl ox oy tilt p0c m q = driftx L p0c m q.
 Proof. exact tdc_off_is_driftx. Qed.
 
+(* ================================================================== Bmad-X quadrupole (model: Bmadx/QuadX.v) *)
+
+(** (a) transverse block at delta = 0.  For pz = 0 and eps := 0 one pass of the loop body of Quadrupole._track_bmadx over a
+    length l acts on (x, px) and on (y, py) EXACTLY by the 2x2 blocks of base_untilted l k1 0 E, the linear quadrupole map
+    (rows 0-3 of Quadrupole.transfer_map before tilt/misalignment), for every k1 <> 0: the map is linear in the transverse
+    coordinates, so this is its transverse Jacobian about the design orbit. *)
+Theorem C07_quadx_step_linear_block : forall Lf k1 l p0c m E q, Lf <> 0 -> k1 <> 0 -> bpz q = 0 ->
+  let M := base_untilted l k1 0 E in let q' := quadx_step 0 Lf k1 l p0c m q in
+  bx q' = c0 (c0 M) * bx q + c1 (c0 M) * bpx q /\ bpx q' = c0 (c1 M) * bx q + c1 (c1 M) * bpx q /\
+  by_ q' = c2 (c2 M) * by_ q + c3 (c2 M) * bpy q /\ bpy q' = c2 (c3 M) * by_ q + c3 (c3 M) * bpy q.
+Proof. exact quadx_step_linear_block. Qed.
+
+(** with the coded eps (any eps >= 0; the code uses 2^-52) the values cx, sx of calculate_quadrupole_coefficients are the
+    cosine-like / sine-like functions Cf, Sf of the linear map at the strength |k| + eps: k_eff = -k + eps (k <= 0), -k - eps (k > 0) *)
+Theorem C07_quadx_coefficients_are_Cf_Sf : forall eps kc len, 0 <= eps -> kc <> 0 \/ 0 < eps ->
+  qc_cx (le0 kc) eps kc len = Cf (qc_keff eps kc) len /\ qc_sx (le0 kc) eps kc len = Sf (qc_keff eps kc) len.
+Proof. intros eps kc len He Hnz. split; [exact (qc_cx_Cf eps kc len He Hnz) | exact (qc_sx_Sf eps kc len He Hnz)]. Qed.
+
+(** ... but a21 = k1*sx*rel_p uses the strength k, not |k| + eps: the coded 2x2 block has determinant 1 -/+ eps*sx^2, i.e. it is
+    symplectic exactly only for eps = 0 (explicit defect; <= 2^-52 * sx^2 for the coded eps) *)
+Theorem C07_quadx_block_determinant : forall eps kc len relp, 0 <= eps -> kc <> 0 \/ 0 < eps -> relp <> 0 ->
+  let f := le0 kc in
+  qc_a11 f eps kc len * qc_a22 f eps kc len - qc_a12 f eps kc len relp * qc_a21 f eps kc len relp
+  = 1 - (if Rle_dec kc 0 then eps else - eps) * (qc_sx f eps kc len)².
+Proof. exact qc_det. Qed.
+
+(** (b) exact flow for eps := 0, ALL six coordinates (x, px, y, py, z, pz), every particle with 1 + pz > 0: a step of length l1
+    followed by a step of length l2 is the step of length l1 + l2 (z included: the quadratic forms c1 x^2 + c2 x px + c3 px^2
+    compose exactly and low_energy_z_correction is linear in the length) *)
+Theorem C07_quadx_flow_eps0 : forall k1 p0c m, k1 <> 0 -> forall Lf1 Lf2 Lf3 l1 l2 q,
+  Lf1 <> 0 -> Lf2 <> 0 -> Lf3 <> 0 -> 0 < 1 + bpz q ->
+  quadx_step 0 Lf2 k1 l2 p0c m (quadx_step 0 Lf1 k1 l1 p0c m q) = quadx_step 0 Lf3 k1 (l1 + l2) p0c m q.
+Proof. exact quadx_flow_eps0. Qed.
+
+(** corollary: independence of num_steps (n steps of length L/n = one step of length L), with misalignment and tilt *)
+Theorem C07_quadx_num_steps_eps0 : forall k1 p0c m, k1 <> 0 -> forall n L ox oy t q, L <> 0 -> n <> O -> 0 < 1 + bpz q ->
+  quadx_bmad 0 n L k1 ox oy t p0c m q = quadx_bmad 0 1 L k1 ox oy t p0c m q.
+Proof. exact quadx_num_steps_eps0. Qed.
+
+(** corollary: two consecutive Bmad-X quadrupoles of equal strength, misalignment and tilt are one of the total length *)
+Theorem C07_quadx_element_flow_eps0 : forall k1 p0c m, k1 <> 0 -> forall n1 n2 n3 L1 L2 ox oy t q,
+  L1 <> 0 -> L2 <> 0 -> L1 + L2 <> 0 -> n1 <> O -> n2 <> O -> n3 <> O -> 0 < 1 + bpz q ->
+  quadx_bmad 0 n2 L2 k1 ox oy t p0c m (quadx_bmad 0 n1 L1 k1 ox oy t p0c m q) = quadx_bmad 0 n3 (L1 + L2) k1 ox oy t p0c m q.
+Proof. exact quadx_element_flow_eps0. Qed.
+
+(** (c) a particle on the axis of an aligned quadrupole (x = px = y = py = 0): for EVERY eps, k1 (0 included), tilt and number
+    of steps the quadratic forms vanish and z only receives low_energy_z_correction over the whole length ... *)
+Theorem C07_quadx_onaxis : forall eps n L k1 t p0c m q, onaxis q -> n <> O ->
+  quadx_bmad eps n L k1 0 0 t p0c m q = mkb 0 0 0 0 (bz q + lez (bpz q) p0c m L) (bpz q).
+Proof. exact quadx_onaxis. Qed.
+
+(** ... which in its exact branch (evaluation >= 3e-7 e_tot) is precisely the Bmad-X drift of the same length *)
+Theorem C07_quadx_onaxis_is_driftx : forall eps n L k1 t p0c m q, 0 < p0c -> 0 < m -> 0 < 1 + bpz q -> onaxis q -> n <> O ->
+  lez_small (bpz q) p0c m = false ->
+  quadx_bmad eps n L k1 0 0 t p0c m q = driftx L p0c m q.
+Proof. exact quadx_onaxis_is_driftx. Qed.
+
+(** (d) offset_particle_unset o offset_particle_set = id (and the other way round); as affine maps on (x,px,y,py,z,pz,1) they are
+    rot(tilt) * misalignment_entry and misalignment_exit * rot(-tilt), the matrices Quadrupole.transfer_map conjugates with *)
+Theorem C07_quadx_offset_roundtrip : forall ox oy t q,
+  off_unset ox oy t (off_set ox oy t q) = q /\ off_set ox oy t (off_unset ox oy t q) = q.
+Proof. intros. split; [apply off_roundtrip | apply off_roundtrip']. Qed.
+Theorem C07_quadx_offset_linear_part : forall ox oy t q,
+  bvec (off_set ox oy t q) = rmvec (rmmul (rot t) (mis_entry ox oy)) (bvec q) /\
+  bvec (off_unset ox oy t q) = rmvec (rmmul (mis_exit ox oy) (rot (- t))) (bvec q).
+Proof. intros. split; [apply off_set_matrix | apply off_unset_matrix]. Qed.
+
+(** the masks of the code depend on pz only: once they are known for the particle, the coded tracking IS the branch-free model
+    (this is the lemma the generated correspondence goals use to select the branch, side conditions proved by interval) *)
+Theorem C07_quadx_branches_resolved : forall fx fy ser n L k1 ox oy tilt E0 m v,
+  le0 (- qs_k1 L k1 (cb_pz (cdelta v) E0 m)) = fx -> le0 (qs_k1 L k1 (cb_pz (cdelta v) E0 m)) = fy ->
+  lez_small (cb_pz (cdelta v) E0 m) (cb_p0c E0 m) m = ser ->
+  quad_bmadx_track n L k1 ox oy tilt E0 m v = quad_bmadx_track_b fx fy ser n L k1 ox oy tilt E0 m v.
+Proof. exact quad_track_resolved. Qed.
+
 Print Assumptions C07_sqrt_one_spec.
 Print Assumptions C07_driftx_dz.
 Print Assumptions C07_driftx_straight_line.
@@ -65,3 +144,14 @@ Print Assumptions C07_driftx_flow.
 Print Assumptions C07_drift_bmadx_closed_form.
 Print Assumptions C07_driftx_jacobian_at_0_partial.
 Print Assumptions C07_tdc_off_is_driftx.
+Print Assumptions C07_quadx_step_linear_block.
+Print Assumptions C07_quadx_coefficients_are_Cf_Sf.
+Print Assumptions C07_quadx_block_determinant.
+Print Assumptions C07_quadx_flow_eps0.
+Print Assumptions C07_quadx_num_steps_eps0.
+Print Assumptions C07_quadx_element_flow_eps0.
+Print Assumptions C07_quadx_onaxis.
+Print Assumptions C07_quadx_onaxis_is_driftx.
+Print Assumptions C07_quadx_offset_roundtrip.
+Print Assumptions C07_quadx_offset_linear_part.
+Print Assumptions C07_quadx_branches_resolved.
